@@ -114,6 +114,12 @@ Deliver(d, e) ==
        /\ have' = [have EXCEPT ![d] = @ \cup batch]
        /\ \E p \in Perms(batch) : arr' = [arr EXCEPT ![d] = @ \o p]
   /\ UNCHANGED entries /\ res' = [ok |-> TRUE]
+\* a batch that holds entry e alone, without its causal past (partial replication: newest first)
+DeliverRaw(d, e) ==
+  /\ e \in Ids /\ e \notin have[d] /\ \E o \in Devs : e \in have[o]
+  /\ have' = [have EXCEPT ![d] = @ \cup {e}]
+  /\ arr' = [arr EXCEPT ![d] = Append(@, e)]
+  /\ UNCHANGED entries /\ res' = [ok |-> TRUE]
 \* close and reopen: the in-memory log is rebuilt from the stored heads
 Reopen(d) == /\ \E p \in Perms(have[d]) : arr' = [arr EXCEPT ![d] = p]
              /\ UNCHANGED <<entries, have>> /\ res' = [ok |-> TRUE]
